@@ -43,7 +43,7 @@ func c02Profiles(tier Tier) []*explore.Profile {
 	}
 	orc := []explore.Oracle{&supplyOracle{property: "C02"}}
 	supply := &explore.Profile{
-		Name: "supply", EnvCfg: ledgerEnv(2), Seeds: seedsOf("fung", "sft", "frozen"), Depth: depth, Deadline: tierDeadline(tier), Oracles: orc,
+		Name: "supply", EnvCfg: ledgerEnv(2), Seeds: seedsOf("fung", "sft", "frozen", "aliased"), Depth: depth, Deadline: tierDeadline(tier), Oracles: orc,
 		Menu: func(w *world.World) []world.Action {
 			acts := supplyMenu(w, o)
 			acts = append(acts, freezeMenu(w, o, true)...)
